@@ -79,8 +79,9 @@ enum State {
         index_hunks: IndexHunkIter,
     },
 
-    /// We finished reading a band
-    AfterBand(BandId),
+    /// We finished reading a band, in which this many index hunks were found (if it could
+    /// be opened).
+    AfterBand(BandId, Option<usize>),
 }
 
 impl Stitch {
@@ -161,7 +162,11 @@ impl Stitch {
                         *buffered_entries = hunk.into_iter().peekable();
                         continue;
                     } else {
-                        State::AfterBand(*band_id)
+                        // Hunks that are missing or unreadable were skipped: say so.
+                        for err in index_hunks.take_errors() {
+                            self.monitor.error(err);
+                        }
+                        State::AfterBand(*band_id, Some(index_hunks.hunks_listed()))
                     }
                 }
                 State::BeforeBand(band_id) => {
@@ -180,13 +185,17 @@ impl Stitch {
                         }
                         Err(err) => {
                             self.monitor.error(err);
-                            State::AfterBand(*band_id)
+                            State::AfterBand(*band_id, None)
                         }
                     }
                 }
-                State::AfterBand(band_id) => {
+                State::AfterBand(band_id, hunks_listed) => {
                     if self.archive.band_is_closed(*band_id).await.unwrap_or(false) {
                         trace!(?band_id, "band is closed; stitched iteration complete");
+                        if let Some(hunks_listed) = *hunks_listed {
+                            check_hunk_count(&self.archive, *band_id, hunks_listed, &self.monitor)
+                                .await;
+                        }
                         State::Done
                     } else if let Some(prev_band_id) =
                         previous_existing_band(&self.archive, *band_id).await
@@ -201,6 +210,30 @@ impl Stitch {
                         State::Done
                     }
                 }
+            }
+        }
+    }
+}
+
+/// Report an error if a closed band has fewer index hunks than its tail says: the entries in
+/// the missing hunks have been left out of the listing.
+async fn check_hunk_count(
+    archive: &Archive,
+    band_id: BandId,
+    hunks_listed: usize,
+    monitor: &Arc<dyn Monitor>,
+) {
+    let Ok(band) = Band::open(archive, band_id).await else {
+        return;
+    };
+    if let Ok(info) = band.get_info().await {
+        if let Some(index_hunk_count) = info.index_hunk_count {
+            if index_hunk_count != hunks_listed as u64 {
+                monitor.error(Error::InvalidMetadata {
+                    details: format!(
+                        "Band {band_id} should have {index_hunk_count} index hunks but {hunks_listed} are present"
+                    ),
+                });
             }
         }
     }
